@@ -52,6 +52,13 @@ var faultErrs = []error{
 	errors.New("injected: rpc error: code = NotFound desc = looks like NotFound but is a plain error"),
 }
 
+// Close releases the store.
+func (h *Hist) Close() {
+	if h != nil && h.Rn != nil {
+		h.Rn.Store.Close()
+	}
+}
+
 // RunHistory draws a universe, builds a real witness and feeds it generated
 // requests; on is called after every request with the recorded step.
 func RunHistory(r *rand.Rand, o HistOpts, on func(h *Hist, s *Step, i int)) (*Hist, error) {
@@ -64,7 +71,6 @@ func RunHistory(r *rand.Rand, o HistOpts, on func(h *Hist, s *Step, i int)) (*Hi
 	if err != nil {
 		return nil, err
 	}
-	defer st.Close()
 	schemes := o.Schemes
 	if schemes == nil {
 		schemes = [][]bool{{false}, {true}, {false, true}}
@@ -72,6 +78,7 @@ func RunHistory(r *rand.Rand, o HistOpts, on func(h *Hist, s *Step, i int)) (*Hi
 	sc := schemes[r.IntN(len(schemes))]
 	keys, err := NewWitKeys(r, sc, len(sc) == 2 && r.IntN(2) == 0)
 	if err != nil {
+		st.Close()
 		return nil, err
 	}
 	h := &Hist{Kind: kind}
@@ -80,6 +87,7 @@ func RunHistory(r *rand.Rand, o HistOpts, on func(h *Hist, s *Step, i int)) (*Hi
 		return h.Hook
 	})
 	if err != nil {
+		st.Close()
 		return nil, err
 	}
 	rn.RawSQL = o.RawSQL
